@@ -1,14 +1,18 @@
 /-
   Store.lean — instance independence (C20): every constructor / decoder call allocates the containers
-  of the new instance; item operations act on that instance's container only.
+  of the new instance; item operations act on that instance's container only; items are objects of
+  their own, and editing one in place is seen exactly by the instances that hold that object.
   Anchors: the `self._tracks = []`-style initialisations of every block __init__ and the default
-  argument of OpticalSetupBlock.__init__ (tdfOpticalSystem.py:123-135), Event.__init__ copying values.
-  An instance is the index of its container cell; items are opaque ids.
+  argument of OpticalSetupBlock.__init__ (tdfOpticalSystem.py:123-135), Event.__init__ copying values,
+  the fresh buffers of every track `_build`.
+  An instance is the index of its container cell; items are opaque object ids; the content of an
+  item is abstracted to the number of in-place edits it has received.
 -/
 namespace Tdf
 
 structure Store where
   cells : List (List Nat)
+  edits : List Nat := []          -- log of edited item ids
   deriving DecidableEq, Repr
 
 inductive SOp where
@@ -16,18 +20,32 @@ inductive SOp where
   | decode (items : List Nat)               -- a decode call producing these items
   | add (inst : Nat) (item : Nat)
   | remove (inst : Nat) (idx : Nat)
+  | edit (inst : Nat) (idx : Nat)           -- in-place edit of the idx-th item of an instance
   deriving DecidableEq, Repr
 
-def Store.empty : Store := ⟨[]⟩
+def Store.empty : Store := ⟨[], []⟩
 def Store.content (s : Store) (i : Nat) : Option (List Nat) := s.cells[i]?
+
+/-- content version of an item -/
+def Store.ver (s : Store) (id : Nat) : Nat := s.edits.count id
+
+/-- what an instance encodes: its items, in order, each with its current content -/
+def Store.encoding (s : Store) (i : Nat) : Option (List (Nat × Nat)) :=
+  (s.cells[i]?).map (fun c => c.map (fun id => (id, s.ver id)))
+
+def Store.itemAt (s : Store) (i k : Nat) : Option Nat := (s.cells[i]?).bind (·[k]?)
 
 /-- returns the new store and, for allocating calls, the new instance -/
 def Store.step (s : Store) : SOp → Store × Option Nat
-  | .construct none => (⟨s.cells ++ [[]]⟩, some s.cells.length)
-  | .construct (some items) => (⟨s.cells ++ [items]⟩, some s.cells.length)
-  | .decode items => (⟨s.cells ++ [items]⟩, some s.cells.length)
-  | .add i it => (⟨s.cells.modify i (· ++ [it])⟩, none)
-  | .remove i k => (⟨s.cells.modify i (·.eraseIdx k)⟩, none)
+  | .construct none => ({ s with cells := s.cells ++ [[]] }, some s.cells.length)
+  | .construct (some items) => ({ s with cells := s.cells ++ [items] }, some s.cells.length)
+  | .decode items => ({ s with cells := s.cells ++ [items] }, some s.cells.length)
+  | .add i it => ({ s with cells := s.cells.modify i (· ++ [it]) }, none)
+  | .remove i k => ({ s with cells := s.cells.modify i (·.eraseIdx k) }, none)
+  | .edit i k =>
+    match s.itemAt i k with
+    | some id => ({ s with edits := id :: s.edits }, none)
+    | none => (s, none)
 
 def Store.run (s : Store) : List SOp → Store
   | [] => s
